@@ -322,12 +322,13 @@ def cut_member_part(ctx, rnd):
         m, cut, total, hn, A, ops, env = j
         sh = core.Shard()
         c = rdh.RCase(A, ops, kind=rnd_kind[cut % 2], flags=rdh.F_FULLDATA, meta=hn)
-        res = rdh.run_batch(_EXE, [c], sh, label='c15cut%d' % (id(j) % 100000), on_crash=lambda c_, cls, key, err: sh.violation('C15-crash:' + key, err[-600:], c_.archive),
+        res = rdh.run_batch(_EXE, [c], sh, label='c15cut%d' % jobno[id(j)], on_crash=lambda c_, cls, key, err: sh.violation('C15-crash:' + key, err[-600:], c_.archive),
                             env_extra=env)
         ev = res.get(c.id) or []
         d = [dd for k, dd in ev if k == 'readall']
         return j, sh, (d[-1]['data'] if d else None)
     rnd_kind = (0, 2)
+    jobno = {id(j): n for n, j in enumerate(jobs)}          # a scratch directory of its own for every run (the runs share this process id)
     groups = {}
     with ThreadPoolExecutor(max_workers=16) as ex:
         for j, sh, data in ex.map(one, jobs):
